@@ -2,12 +2,11 @@ CONSTANTS
   NUser = 3
   Level = 0
   MaxSteps = 0
-  Deviations = {"NoClearOnAddEdge", "NoClearOnAddGenerator"}
+  Deviations = {"NoProviderClearOnAddEdge"}
   Prov = "G"
   FixedRoots = TRUE
 SPECIFICATION TSpec
 INVARIANT CachedEqualsRecomputed_KnownNoClearOnAddEdge
-INVARIANT CachedEqualsRecomputed_KnownNoClearOnAddGenerator
 INVARIANT CachedEqualsRecomputed_Other
 INVARIANT Drift_Answer
 INVARIANT Drift_ReturnType
